@@ -259,7 +259,7 @@ func wsRender(src string, tb, ls bool, onSet bool, twice bool) (string, string, 
 		tpl.Options.TrimBlocks = tb
 		tpl.Options.LStripBlocks = ls
 	}
-	out, err := tpl.Execute(wsCtx())
+	out, err := execSpread(tpl, wsCtx(), hashStr(src))
 	if err != nil {
 		return "", "", err
 	}
